@@ -422,12 +422,20 @@ def search(ctx, hints):
     import time
     t0 = time.time()
     tried = 0
+    known = [k for k in KNOWN_PATTERNS if k.get('status') == 'open']
     while time.time() - t0 < ctx.n(60, 600):
         items, _w = gens_C11.case11(ctx.rng)
         tried += 1
         f = oracle_items(items)
         if isinstance(f, dict):
-            return {'failures': [f], 'tried': tried}
+            # the pair may differ at several places: isolate them, report the first that is no instance of a listed finding
+            try:
+                parts = isolate(items)
+            except Exception:  # noqa
+                parts = [f]
+            new = [g for g in parts if classify(g, known) is None]
+            if new:
+                return {'failures': new[:1], 'tried': tried}
     return {'failures': [], 'tried': tried}
 
 
